@@ -8,7 +8,7 @@ import (
 
 // Shrink minimises the tape of rf while the same violation key persists (delete spans, zero values, halve /
 // decrement values). Every accepted candidate is normalised to the values the run actually consumed.
-func Shrink(t *testing.T, h Harness, rf *ReplayFile, known map[string]bool, budget time.Duration) *ReplayFile {
+func Shrink(t *testing.T, h Harness, rf *ReplayFile, known *Known, budget time.Duration) *ReplayFile {
 	key := rf.Violation.Key()
 	start := time.Now()
 	best := append([]int(nil), rf.Tape...)
